@@ -900,6 +900,20 @@ impl Prop for C04 {
             ];
             out.push(("big-ctx", crate::props2::simple_spec(rules, i % 3 == 0, vec![])));
         }
+        // contexts whose automaton is exponentially larger than the regex (`_* ';' _ … _`)
+        for k in tier.pick(9usize..=9, 9usize..=10) {
+            let mut c = cat(oracle::re::star(Re::Any), Re::Char(';'));
+            for _ in 0..k {
+                c = cat(c, Re::Set(vec![oracle::re::SetItem::R('a', 'd'), oracle::re::SetItem::C(';')]));
+            }
+            let rules = vec![
+                (Re::Char('&'), Some(c)),
+                (Re::Char('&'), None),
+                (plus(Re::Set(vec![oracle::re::SetItem::R('a', 'd')])), None),
+                (Re::Char(';'), None),
+            ];
+            out.push(("exp-ctx", crate::props2::simple_spec(rules, k % 2 == 0, vec![])));
+        }
         // rules that END in a class (accepting transitions on range pieces), 2-4 of them with
         // overlapping classes, some with right contexts: the pieces of the common refinement
         // carry different lists of candidate rules, one list often a prefix of another
